@@ -5,7 +5,7 @@
    [nb_ok nb]: every neighbour index is in range and the neighbour relation is symmetric (as a multiset of
    ordered pairs); [upairs nb] are the neighbouring pairs (i,k), i < k, with multiplicity. *)
 From Coq Require Import ZArith List Bool Reals Lra.
-From PAV Require Import Base.Res Base.NumOps Base.Sum Model.C07 Proofs.C07.
+From PAV Require Import Base.Res Base.NumOps Base.Sum Model.C07 Proofs.C07 Proofs.C07Rect.
 Import ListNotations.
 Local Open Scope R_scope.
 
@@ -194,13 +194,29 @@ Theorem C07_reduced_is_assembly_of_regularized : forall (objs : list (nat * opti
   @inversion_matrix_reduced ROps objs = @inversion_matrix ROps (filter (@has_reg ROps) objs).
 Proof. exact T_reduced. Qed.
 
-(* ---------------- rectangular meshes: the neighbour table (finite sweep, NOT for all shapes) ----------------
-   For every shape 2..10 x 2..10 the model of mesh_util.rectangular_neighbors_from (six region loops as sequential writes)
-   is the 4-neighbourhood of the H x W grid, whose relation is in range and symmetric: [nb_ok] holds, so the theorems
-   above apply to these meshes.  Proved by computation inside Coq; larger shapes are not covered by a theorem. *)
-Theorem C07_rect_neighbors_upto_10 : forall H W, (2 <= H <= 10)%nat -> (2 <= W <= 10)%nat ->
+(* ---------------- rectangular meshes of EVERY shape >= 2 x 2 (the Rectangular mesh class demands >= 3 x 3) ----------------
+   The model of mesh_util.rectangular_neighbors_from (the six region loops as a list of row writes, later writes win) returns
+   the 4-neighbourhood of the H x W grid, and that neighbour relation is in range and symmetric: [nb_ok] holds, so the
+   neighbour-difference theorems apply to every rectangular mesh without further hypothesis. *)
+Theorem C07_rect_neighbors_all_shapes : forall H W, (2 <= H)%nat -> (2 <= W)%nat ->
   rect_neighbors H W = map (map Z.of_nat) (grid_rows H W) /\ nb_ok (grid_rows H W) = true.
-Proof. exact T_rect_upto_10. Qed.
+Proof. exact T_rect_all. Qed.
+Theorem C07_rectangular_mesh_constant : forall H W (eps c : R), (2 <= H)%nat -> (2 <= W)%nat ->
+  (forall a b, (a < H * W)%nat -> (b < H * W)%nat ->
+     @mget ROps (@constant_matrix ROps eps c (grid_rows H W)) a b = @mget ROps (@constant_matrix ROps eps c (grid_rows H W)) b a)
+  /\ (forall x : list R, length x = (H * W)%nat ->
+        @quad ROps (@constant_matrix ROps eps c (grid_rows H W)) x = @qf_constant ROps eps c (grid_rows H W) x)
+  /\ (0 < eps -> forall x : list R, length x = (H * W)%nat -> (exists i, nth i x 0 <> 0) ->
+        0 < @quad ROps (@constant_matrix ROps eps c (grid_rows H W)) x).
+Proof. exact T_rect_constant. Qed.
+Theorem C07_rectangular_mesh_adaptive : forall H W (eps : R) (w : list R), (2 <= H)%nat -> (2 <= W)%nat -> length w = (H * W)%nat ->
+  (forall a b, (a < H * W)%nat -> (b < H * W)%nat ->
+     @mget ROps (@weighted_matrix ROps eps w (grid_rows H W)) a b = @mget ROps (@weighted_matrix ROps eps w (grid_rows H W)) b a)
+  /\ (forall x : list R, length x = (H * W)%nat ->
+        @quad ROps (@weighted_matrix ROps eps w (grid_rows H W)) x = @qf_weighted ROps eps w (grid_rows H W) x)
+  /\ (0 < eps -> forall x : list R, length x = (H * W)%nat -> (exists i, nth i x 0 <> 0) ->
+        0 < @quad ROps (@weighted_matrix ROps eps w (grid_rows H W)) x).
+Proof. exact T_rect_weighted. Qed.
 
 (* ---------------- kernel schemes (GaussianKernel, ExponentialKernel): PARTIAL ----------------
    The covariance assembly (for every profile [kern] of the squared distance) is square and symmetric. *)
@@ -285,7 +301,9 @@ Print Assumptions C07_reg_split_row.
 Print Assumptions C07_split_cross_pipeline.
 Print Assumptions C07_qf_split_meaning.
 Print Assumptions C07_reduced_is_assembly_of_regularized.
-Print Assumptions C07_rect_neighbors_upto_10.
+Print Assumptions C07_rect_neighbors_all_shapes.
+Print Assumptions C07_rectangular_mesh_constant.
+Print Assumptions C07_rectangular_mesh_adaptive.
 Print Assumptions C07_covariance_size_symmetric.
 Print Assumptions C07_kernel_scheme_spd_partial.
 Print Assumptions C07_block_placement_in_order.
